@@ -90,10 +90,7 @@ Section Pages.
   Hypothesis Hties : k_ties m rows q ps = false.
   Hypothesis Hk2 : k_rawkey m rows q = false.
   Hypothesis Hk3 : k_booldefault m rows q = false.
-  Hypothesis Hk5a : k_collision m (with_page q n None) = false.
-  Hypothesis Hk5b : k_collision m (with_page q n (Some (map (fun _ => VNull) (q_order q)))) = false.
   Hypothesis Hk6 : k_nullvar q ps = false.
-  Hypothesis Hk8 : k_spliced m q = false.
 
   (* unpacking wf_pages *)
   Lemma wfp_parts : wf_query m q = true /\ params_ok q ps = true /\
@@ -205,18 +202,12 @@ Section Pages.
       unfold k_paging. rewrite matching_keys_page. destruct Hv as [Hl _]. rewrite Hl. exact Hk1. }
     assert (E2 : k_rawkey m rows (with_page q n cur) = false) by exact Hk2.
     assert (E3 : k_booldefault m rows (with_page q n cur) = false) by exact Hk3.
-    assert (E4 : k_skip_alone (with_page q n cur) = false).
-    { unfold k_skip_alone. cbn [with_page q_first q_skip]. destruct n; reflexivity. }
-    assert (E5 : k_collision m (with_page q n cur) = false).
-    { destruct cur as [c|]. 2: exact Hk5a. destruct Hv as [Hl _].
-      rewrite (with_page_length c (map (fun _ : okey => VNull) (q_order q))). exact Hk5b. rewrite map_length. exact Hl. }
     assert (E6 : k_nullvar (with_page q n cur) (cursor_params cur ++ ps) = false).
     { rewrite <- Hk6. unfold k_nullvar. cbn [with_page q_filters]. apply existsb_ext_in'. intros f Hf.
       destruct (fl_val f) as [lv|nm] eqn:Ev. reflexivity.
       pose proof (operand_value_filter cur f Hf) as Hop. rewrite Ev in Hop. simpl in Hop. rewrite Hop. reflexivity. }
     assert (E7 : k_firstzero (with_page q n cur) (cursor_params cur ++ ps) = false) by reflexivity.
-    assert (E8 : k_spliced m (with_page q n cur) = false) by exact Hk8.
-    rewrite E1, E2, E3, E4, E5, E6, E7, E8. reflexivity.
+    rewrite E1, E2, E3, E6, E7. reflexivity.
   Qed.
 
   Lemma page_run : forall cur, valid_cursor cur ->
